@@ -21,7 +21,7 @@ from . import check_c20 as c20
 
 PROPERTY = "C17"
 BATCH = {"quick": 6, "thorough": 8}
-RUNS = {"quick": 168, "thorough": 6000}
+RUNS = {"quick": 216, "thorough": 6000}
 TIMEOUT = 1500
 LEVEL = "exploration"
 FIXED_BATCHES = True
@@ -276,7 +276,8 @@ def _program_choice(rng):
     if r < 0.5:
         prog, goals, squares = linear_system_program(rng)
         text = render_program(prog, rng.choice(["frac", "frac", "minimal"]))
-        goals = rng.sample(goals, min(len(goals), 2))
+        keep = ["s"] if "s" in goals else []      # the accumulator's system contains every root multiplicity of the program
+        goals = keep + rng.sample([g for g in goals if g not in keep], min(len(goals) - len(keep), 2 - len(keep)))
         if squares and rng.random() < 0.3:
             goals.append(f"{goals[0]}**2")
         # three-variable blocks have cubic characteristic polynomials whose roots sympy keeps as CRootOf objects
